@@ -40,8 +40,7 @@ def confirm(sid):
             return res
         res["suite_with_patch"] = tests(wt, target)
         res["demo_with_patch_passes"], res["demo_with_patch_out"] = demo(wt, target, sd)
-        sh("git -C %s checkout -- . && git -C %s reset -q" % (wt, wt))
-        sh("git -C %s stash -q; git -C %s checkout -- ." % (wt, wt))
+        sh("git -C %s checkout -- . && git -C %s reset -q && git -C %s checkout -- ." % (wt, wt, wt))
         res["demo_without_patch_passes"], res["demo_without_patch_out"] = demo(wt, target, sd)
     finally:
         sh("git -C %s worktree remove --force %s" % (REPO, wt))
@@ -52,21 +51,28 @@ def confirm(sid):
     return res
 
 def run(sid, props, tier="quick"):
+    """Checks run against a scratch worktree of /repo HEAD with the patch applied (VERIF_REPO), so that /repo itself
+    stays untouched while background runs use it; equivalent to `git -C /repo apply` + check + `git checkout -- .`."""
     sd = os.path.join(ROOT, "seeded", sid)
-    assert sh("git -C %s status --porcelain" % REPO).stdout.strip() == "", "/repo not clean"
-    a = sh("git -C %s apply %s/patch.diff" % (REPO, sd))
+    wt = "/tmp/seedrun_%s" % sid
+    sh("git -C %s worktree remove --force %s" % (REPO, wt))
+    sh("git -C %s worktree add --detach %s HEAD" % (REPO, wt))
+    shutil.copy(os.path.join(REPO, "Cargo.lock"), os.path.join(wt, "Cargo.lock"))
+    a = sh("git -C %s apply %s/patch.diff" % (wt, sd))
     out = {}
     try:
         if a.returncode != 0:
             print(a.stdout); return {"apply": False}
         for p in props:
             t0 = time.time()
-            r = sh("cd %s && ./check %s %s" % (ROOT, p, tier))
+            r = sh("cd %s && VERIF_REPO=%s ./check %s %s" % (ROOT, wt, p, tier))
             lines = [l for l in r.stdout.splitlines() if l.startswith("VIOLATION") or l.startswith("TOOL-ERROR")]
-            out[p] = {"exit": r.returncode, "violations": len(lines), "first": lines[:2], "wall_s": round(time.time() - t0)}
-            print(p, json.dumps(out[p])[:600])
+            out[p] = {"exit": r.returncode, "violations": len(lines), "first": [l[:300] for l in lines[:2]], "wall_s": round(time.time() - t0)}
+            print(sid, p, json.dumps(out[p])[:700])
     finally:
-        sh("git -C %s checkout -- ." % REPO)
+        sh("git -C %s worktree remove --force %s" % (REPO, wt))
+        shutil.rmtree(wt, ignore_errors=True)
+        sh("cd %s/harness && sed -i 's#path = \"[^\"]*/regexml\"#path = \"/repo/regexml\"#' Cargo.toml" % ROOT)
     return out
 
 if __name__ == "__main__":
